@@ -182,6 +182,9 @@ func (ad *adapter) FlushT(t time.Time) (int, int) {
 	return ad.a.FlushWithOptions(reassembly.FlushOptions{T: t})
 }
 func (ad *adapter) FlushClose(t time.Time) (int, int) { return ad.a.FlushCloseOlderThan(t) }
+func (ad *adapter) FlushTTC(t, tc time.Time) (int, int) {
+	return ad.a.FlushWithOptions(reassembly.FlushOptions{T: t, TC: tc})
+}
 func (ad *adapter) FlushAll() int                     { return ad.a.FlushAll() }
 func (ad *adapter) SetLimits(pc, tot int) {
 	ad.a.MaxBufferedPagesPerConnection, ad.a.MaxBufferedPagesTotal = pc, tot
@@ -263,7 +266,7 @@ var sims = map[string]sim.SimFunc{
 		tcpsim.Run(c, tcpsim.RunCfg{Strong: true, Bidir: true, Gen: tcpsim.GenCfg{MaxConns: 3, AllowNoEnd: true, AllowRST: true, SynData: true}}, mkWith(true, false))
 	},
 	"c11r": func(c *sim.Ctx) {
-		tcpsim.Run(c, tcpsim.RunCfg{Lifecycle: true, Bidir: true, Gen: tcpsim.GenCfg{MaxConns: 8, AllowNoEnd: true, AllowRST: true, CloseFlush: true, Reopen: true, BackJumps: true, Short: true}}, mkWith(true, true))
+		tcpsim.Run(c, tcpsim.RunCfg{Lifecycle: true, Bidir: true, Gen: tcpsim.GenCfg{MaxConns: 8, AllowNoEnd: true, AllowRST: true, CloseFlush: true, Reopen: true, BackJumps: true, Short: true, SynData: true}}, mkWith(true, true))
 	},
 }
 
